@@ -193,7 +193,10 @@ func ChildMain(argJSON string) int {
 	caseStartCPU.Store(cpuSeconds())
 	var curIndex atomic.Int64
 	curIndex.Store(-1)
-	hangLimit := hangCPUSeconds
+	hangLimit := 900.0
+	if p.HangCPUSeconds > 0 {
+		hangLimit = p.HangCPUSeconds
+	}
 	confirmRun := false
 	if v, err := strconv.Atoi(os.Getenv("VMON_HANG_CPU")); err == nil && v > 0 {
 		hangLimit = float64(v)
